@@ -5,8 +5,12 @@ import Mkts.Model.Catalog
 Granularity = the lock-protected sections that exist in `catalog/catalog.go` (see
 `Mkts.Extracted.Skel.catalog_*` and `Props/C17.lean` for the generated lock atoms):
 
+* (repaired code, `Variant.serialised`) `AddTimeBucket`, `RemoveTimeBucket` and
+  `GetSubDirectoryAndAddFile` first take the root's `mutMu` and hold it to their return: they exclude
+  one another.  Before the repair `RemoveTimeBucket` took no lock of its own (below).
 * `AddTimeBucket` and `GetSubDirectoryAndAddFile` take the ROOT's write lock for their whole body
   (`d.Lock(); defer d.Unlock()`): atoms `lock … unlock`, every atom in between runs while holding it;
+  the repaired `AddTimeBucket` validates the key (`check`) right after the lock;
 * `RemoveTimeBucket` takes NO lock of its own: it is a sequence of short sections, each locking one
   Directory object — `GetSubDirWithItemName` (RLock, per level of the descent), `removeDirFiles`
   (Lock of that object, around `os.RemoveAll`), `removeSubDir` (Lock of the parent),
@@ -35,6 +39,7 @@ structure Shared where
   dmap : List (Path × Nat)
   disk : Dir
   rootLock : Option Nat
+  mutLock : Option Nat     -- the root's `mutMu` (repaired code)
 deriving DecidableEq, Repr
 
 def emptyObj : Obj := ⟨[], none, [], []⟩
@@ -60,7 +65,7 @@ def upsertP (k : Path) (v : Nat) : List (Path × Nat) → List (Path × Nat)
 
 def eraseP (k : Path) (l : List (Path × Nat)) : List (Path × Nat) := l.filter (fun e => e.1 != k)
 
-def Shared.init : Shared := ⟨[⟨[], none, [], []⟩], [], initDisk, none⟩
+def Shared.init : Shared := ⟨[⟨[], none, [], []⟩], [], initDisk, none, none⟩
 
 /-- the root's lock is free for thread `me` -/
 def rootFree (sh : Shared) (me : Nat) : Bool :=
@@ -106,11 +111,11 @@ def reloadSymbol (s : String) (c0 : String) (sh : Shared) : Option Shared :=
 /-! ## threads -/
 
 inductive DPc
-  | walk (i : Nat) | secA (i : Nat) | secB (i : Nat) | secC (i : Nat) (hasSubs : Bool) | f1 | f2
+  | lock | walk (i : Nat) | secA (i : Nat) | secB (i : Nat) | secC (i : Nat) (hasSubs : Bool) | f1 | f2
 deriving DecidableEq, Repr
 
 inductive CPc
-  | lock | mk (i : Nat) | wc (i : Nat) | year | file | reload | unlock (r : Res)
+  | lock | check | mk (i : Nat) | wc (i : Nat) | year | file | reload | unlock (r : Res)
 deriving DecidableEq, Repr
 
 inductive WPc
@@ -124,33 +129,44 @@ inductive Thread
   | done (r : Res)
 deriving DecidableEq, Repr
 
-def Thread.mkDestroy (items : Path) : Thread := .destroy items [] (List.replicate items.length false) (.walk 0)
+def Thread.mkDestroy (items : Path) : Thread := .destroy items [] (List.replicate items.length false) .lock
 def Thread.mkCreate (items cats : List String) (year : Int) (schema : Nat) : Thread := .create items cats year schema .lock
 def Thread.mkAddYear (p : Path) (year : Int) : Thread := .addYear p year .lock
 
 def removeDirFilesObj (sh : Shared) (id : Nat) : Shared :=
   { sh with disk := removeAll (getObj sh.heap id).path sh.disk }
 
-/-- `parent.removeSubDir(name, directMap)` -/
-def removeSubDirObj (sh : Shared) (parent : Nat) (name : String) : Shared :=
+/-- `parent.removeSubDir(name, directMap)`; `deep` = the repaired code (every key at or below the
+    child's path is deleted from the direct map) -/
+def removeSubDirObj (deep : Bool) (sh : Shared) (parent : Nat) (name : String) : Shared :=
   let po := getObj sh.heap parent
   let dm := match lookupS name po.subs with
-    | some cid => eraseP (getObj sh.heap cid).path sh.dmap
+    | some cid =>
+      if deep then sh.dmap.filter (fun e => !(isPre (getObj sh.heap cid).path e.1))
+      else eraseP (getObj sh.heap cid).path sh.dmap
     | none => sh.dmap
   { sh with heap := sh.heap.set parent { po with subs := eraseS name po.subs }, dmap := dm }
 
-/-- one atom of thread `me`; `none` = not enabled (blocked on the root's lock, or finished) -/
-def step (me : Nat) (th : Thread) (sh : Shared) : Option (Thread × Shared) :=
+/-- release the root's `mutMu` if this thread holds it (deferred unlock) -/
+def relMut (me : Nat) (sh : Shared) : Shared :=
+  if sh.mutLock == some me then { sh with mutLock := none } else sh
+
+/-- one atom of thread `me`; `none` = not enabled (blocked on a lock, or finished) -/
+def step (v : Variant) (me : Nat) (th : Thread) (sh : Shared) : Option (Thread × Shared) :=
   match th with
   | .done _ => none
   | .destroy items tree del pc =>
     let n := items.length
     match pc with
+    | .lock =>
+      if v.serialised then
+        (if sh.mutLock.isSome then none else some (.destroy items tree del (.walk 0), { sh with mutLock := some me }))
+      else some (.destroy items tree del (.walk 0), sh)
     | .walk i =>
       if i = 0 && !(rootFree sh me) then none else
       let cur := if i = 0 then 0 else tree.getD (i - 1) 0
       match lookupS (items.getD i "") (getObj sh.heap cur).subs with
-      | none => some (.done .noKey, sh)
+      | none => some (.done .noKey, relMut me sh)
       | some id =>
         let tree' := tree ++ [id]
         some (.destroy items tree' del (if i + 1 < n then .walk (i + 1) else .secA (n - 1)), sh)
@@ -158,24 +174,30 @@ def step (me : Nat) (th : Thread) (sh : Shared) : Option (Thread × Shared) :=
       if i + 1 = n then
         some (.destroy items tree (del.set i true) (.secB i), removeDirFilesObj sh (tree.getD i 0))
       else if del.getD (i + 1) false then
-        some (.destroy items tree del (.secB i), removeSubDirObj sh (tree.getD i 0) (items.getD (i + 1) ""))
+        some (.destroy items tree del (.secB i), removeSubDirObj v.deepDelete sh (tree.getD i 0) (items.getD (i + 1) ""))
       else some (.destroy items tree del (.secB i), sh)
     | .secB i =>
       some (.destroy items tree del (.secC i (!(getObj sh.heap (tree.getD i 0)).subs.isEmpty)), sh)
     | .secC i hs =>
       let (del', sh') := if hs then (del, sh) else (del.set i true, removeDirFilesObj sh (tree.getD i 0))
       if i = 0 then
-        (if del'.getD 0 false then some (.destroy items tree del' .f1, sh') else some (.done .ok, sh'))
+        (if del'.getD 0 false then some (.destroy items tree del' .f1, sh') else some (.done .ok, relMut me sh'))
       else some (.destroy items tree del' (.secA (i - 1)), sh')
     | .f1 => some (.destroy items tree del .f2, removeDirFilesObj sh (tree.getD 0 0))
     | .f2 =>
       if !(rootFree sh me) then none else
-      some (.done .ok, removeSubDirObj sh 0 (items.getD 0 ""))
+      some (.done .ok, relMut me (removeSubDirObj v.deepDelete sh 0 (items.getD 0 "")))
   | .create items cats year schema pc =>
     let n := items.length
     match pc with
-    | .lock => if sh.rootLock.isSome then none else
-        some (.create items cats year schema (if n = 0 then .year else .mk 0), { sh with rootLock := some me })
+    | .lock => if sh.rootLock.isSome || (v.serialised && sh.mutLock.isSome) then none else
+        some (.create items cats year schema (if v.checkFirst then .check else if n = 0 then .year else .mk 0),
+              { sh with rootLock := some me, mutLock := if v.serialised then some me else sh.mutLock })
+    | .check =>
+      if cats.length ≠ n then some (.create items cats year schema (.unlock .keyLen), sh) else
+      match validateKey [] items cats sh.disk with
+      | some e => some (.create items cats year schema (.unlock e), sh)
+      | none => some (.create items cats year schema (if n = 0 then .year else .mk 0), sh)
     | .mk i =>
       some (.create items cats year schema (.wc i), { sh with disk := mkdirIfMissing (items.take (i + 1)) sh.disk })
     | .wc i =>
@@ -203,10 +225,12 @@ def step (me : Nat) (th : Thread) (sh : Shared) : Option (Thread × Shared) :=
         | none => some (.create items cats year schema (.unlock .other), sh)
         | some sh' => some (.create items cats year schema (.unlock .ok), sh')
       | _, _ => some (.create items cats year schema (.unlock .panicIndex), sh)
-    | .unlock r => some (.done r, { sh with rootLock := none })
+    | .unlock r => some (.done r, relMut me { sh with rootLock := none })
   | .addYear p year pc =>
     match pc with
-    | .lock => if sh.rootLock.isSome then none else some (.addYear p year .lookup, { sh with rootLock := some me })
+    | .lock => if sh.rootLock.isSome || (v.serialised && sh.mutLock.isSome) then none else
+        some (.addYear p year .lookup,
+              { sh with rootLock := some me, mutLock := if v.serialised then some me else sh.mutLock })
     | .lookup =>
       match lookupP p sh.dmap with
       | none => some (.addYear p year (.unlock .notInCatalog), sh)
@@ -221,7 +245,7 @@ def step (me : Nat) (th : Thread) (sh : Shared) : Option (Thread × Shared) :=
     | .insert id sch =>
       let o := getObj sh.heap id
       some (.addYear p year (.unlock .ok), { sh with heap := sh.heap.set id { o with files := o.files ++ [(year, sch)] } })
-    | .unlock r => some (.done r, { sh with rootLock := none })
+    | .unlock r => some (.done r, relMut me { sh with rootLock := none })
 
 structure Sys where
   threads : List Thread
@@ -229,19 +253,19 @@ structure Sys where
 deriving DecidableEq, Repr
 
 /-- run thread `t` one atom; `none` = the schedule asks for a disabled step -/
-def Sys.step (s : Sys) (t : Nat) : Option Sys :=
+def Sys.step (v : Variant) (s : Sys) (t : Nat) : Option Sys :=
   match s.threads[t]? with
   | none => none
   | some th =>
-    match CatalogConc.step t th s.sh with
+    match CatalogConc.step v t th s.sh with
     | none => none
     | some (th', sh') => some ⟨s.threads.set t th', sh'⟩
 
-def Sys.run : Sys → List Nat → Option Sys
+def Sys.run (v : Variant) : Sys → List Nat → Option Sys
   | s, [] => some s
-  | s, t :: ts => match s.step t with
+  | s, t :: ts => match s.step v t with
     | none => none
-    | some s' => s'.run ts
+    | some s' => Sys.run v s' ts
 
 def Thread.isDone : Thread → Bool
   | .done _ => true
@@ -254,39 +278,39 @@ def Thread.result : Thread → Option Res
   | _ => none
 
 /-- run one thread to completion (sequential execution of a request) -/
-def runSeq (t : Nat) : Nat → Sys → Sys
+def runSeq (v : Variant) (t : Nat) : Nat → Sys → Sys
   | 0, s => s
-  | f + 1, s => match s.step t with
+  | f + 1, s => match s.step v t with
     | none => s
-    | some s' => runSeq t f s'
+    | some s' => runSeq v t f s'
 
 /-- all final states over ALL enabled interleavings (depth-first, `fuel` ≥ total number of atoms) -/
-def explore : Nat → Sys → List Sys
+def explore (v : Variant) : Nat → Sys → List Sys
   | 0, s => [s]
   | f + 1, s =>
-    let nexts := (List.range s.threads.length).filterMap (fun t => s.step t)
-    if nexts.isEmpty then [s] else nexts.flatMap (fun s' => explore f s')
+    let nexts := (List.range s.threads.length).filterMap (fun t => s.step v t)
+    if nexts.isEmpty then [s] else nexts.flatMap (fun s' => explore v f s')
 
 /-! ## reachable state graph (all schedules) -/
 
-def succs (s : Sys) : List Sys := (List.range s.threads.length).filterMap s.step
+def succs (v : Variant) (s : Sys) : List Sys := (List.range s.threads.length).filterMap (s.step v)
 
 def addNew : List Sys → List Sys → List Sys
   | [], vis => vis
   | s :: rest, vis => if vis.contains s then addNew rest vis else addNew rest (vis ++ [s])
 
 /-- breadth-first closure of the step relation -/
-def bfs : Nat → List Sys → List Sys → List Sys
+def bfs (v : Variant) : Nat → List Sys → List Sys → List Sys
   | 0, _, vis => vis
   | f + 1, fr, vis =>
     if fr.isEmpty then vis else
-    let cand := fr.flatMap succs
+    let cand := fr.flatMap (succs v)
     let vis' := addNew cand vis
-    bfs f (vis'.drop vis.length) vis'
+    bfs v f (vis'.drop vis.length) vis'
 
-def closed (vis : List Sys) : Bool := vis.all (fun s => (succs s).all (fun s' => vis.contains s'))
+def closed (v : Variant) (vis : List Sys) : Bool := vis.all (fun s => (succs v s).all (fun s' => vis.contains s'))
 
-def terminal (s : Sys) : Bool := (succs s).isEmpty
+def terminal (v : Variant) (s : Sys) : Bool := (succs v s).isEmpty
 
 /-! ## observations -/
 
